@@ -18,8 +18,23 @@ from . import c08
 FOCUS = 'C09'
 
 
+PRIMERS = [b'x=1 ', b'x=1\t', b'x=1  ', b'-- c ', b'x=1 -- c', b'if (a) b=1 ', b'x=1\n\n\n', b'x = {\n 1,\n}  ', b'do\n  x=1\nend ']
+_PRIMED = set()
+
+
+def prime(width):
+    """Calls of the formatter are not independent if it keeps state between them: before the first
+    judged program of a process, a few valid programs ending in blanks / comments without a final
+    newline are formatted (their own outputs are judged like any other program elsewhere)."""
+    if width not in _PRIMED:
+        _PRIMED.add(width)
+        for s in PRIMERS:
+            fmt.run_writer(s, 'fmt', width)
+
+
 def _mk(item):
     name, src, deriv, width, focus, want_variants, seed = item
+    prime(width)
     out, err, info = fmt.run_writer(src, 'fmt', width)
     if out is None:
         return ('load' if err.startswith('load:') else 'raises', err, None)
@@ -144,7 +159,7 @@ def fixture_cases(ctx, rnd):
     return out
 
 
-DEGENERATE = [b'', b'\n', b'-- only a comment\n', b'   \n\t\n', b'x=1', b'x=1\r\n', b'-- c', b'//c\n\n\n', b'x=1\n\n\n\n']
+DEGENERATE = [b'', b'\n', b'-- only a comment\n', b'   \n\t\n', b'x=1', b'x=1\r\n', b'-- c', b'//c\n\n\n', b'x=1\n\n\n\n', b'x=1 ', b'x=1  ', b'x=1\t']
 NEWER = [b'a |= 1\n', b'a \\= 2\n', b'?x,y\n', b'a=b=c\n', b'x = 1 y == 2\n', b'if (a) b=1 else\nc=2\n', b'while (a) b=1\nc=2\n',
          b'f() ) g()\n', b'x = {1,2,,}\n', b'local a <const> = 1\n', b'a ^^= 1\n', b'a >>>= 1\n', b'x=1 end y=2\n']
 
